@@ -277,6 +277,10 @@ def step(st: State, op, viol):
                 s.rows = [r for r in s.rows if r[0] != n]
                 model_add(s.rows, new if new is not None else n, coefs, limit)
                 tag = "upd:" + shape(e)
+            elif kind == "json":
+                # the network is dumped and re-loaded; the restored object carries on (only used in root histories)
+                s.net = net = ChargingNetwork.from_json(net.to_json())
+                tag = "json"
             elif kind == "reg":
                 nxt = [x for x in "ABCD" if x not in s.stations]
                 if not nxt:
@@ -494,6 +498,9 @@ def space(tier, seed):
         if len(order) == 3:
             # (named ones use a name outside the alphabet, so the search stays within ONE duplicate of a name)
             for pre in ([["add", 0, None], ["add", 6, None], ["add", 3, None]], [["add", 14, "x1"], ["add", 6, None]], [["add", 4, None], ["add", 0, "x1"], ["add", 12, None]]):
+                items.append({"order": order, "root": pre, "depth": 2, "full": False})
+            # ... and tables that went through a JSON round trip before the edits continue
+            for pre in ([["add", 0, None], ["add", 6, None], ["json"]], [["add", 14, "x1"], ["rem", "x1"], ["json"]], [["json"], ["add", 4, None]]):
                 items.append({"order": order, "root": pre, "depth": 2, "full": False})
     return items
 
